@@ -86,7 +86,7 @@ Root genInterlude(Choices& c) {
 std::string mateStr(const refdtm::Value& v) { return v.wdl > 0 ? "mate " + std::to_string(v.moves()) : v.wdl < 0 ? "mate -" + std::to_string(v.moves()) : "draw"; }
 
 // ---- judge one TB root ------------------------------------------------------------------------
-std::string judge(const Root& rt, const us::Result& r, vh::Stats& st, bool& nontrivial) {
+std::string judge(const Root& rt, const us::Result& r, vh::Stats& st, bool& nontrivial, const std::function<Value()>& sample) {
     ref::Pos root;
     if (!ref::fromFEN(rt.fen, root)) return "";
     refdtm::Value v = refdtm::probe(root);
@@ -119,22 +119,22 @@ std::string judge(const Root& rt, const us::Result& r, vh::Stats& st, bool& nont
     ref::Pos child = ref::make(root, bm);
     refdtm::Value cv = refdtm::probe(child);
     if (within && v.wdl > 0) {
-        st.cls("root won, mate inside the 50-move limit");
+        st.clsSample("root won, mate inside the 50-move limit", sample);
         if (!(f.mate && f.score == N)) return "last exact score '" + last->raw.substr(0, 120) + "' is not the distance to mate" + ctx();
         if (!(cv.ok && cv.wdl < 0 && cv.plies == P - 1)) return "bestmove " + r.best + " does not follow a shortest mate: afterwards " + mateStr(cv) + " (" + std::to_string(cv.plies) + " plies) for the side to move" + ctx();
     } else if (within && v.wdl < 0) {
-        st.cls("root lost, mate inside the 50-move limit");
+        st.clsSample("root lost, mate inside the 50-move limit", sample);
         if (!(f.mate && f.score == -N)) return "last exact score '" + last->raw.substr(0, 120) + "' is not the distance to mate" + ctx();
         st.count((cv.ok && cv.wdl > 0 && cv.plies == P - 1) ? "lost root: bestmove is a longest defence" : "lost root: bestmove is not a longest defence (not asserted)");
     } else if (v.wdl == 0) {
-        st.cls("root drawn");
+        st.clsSample("root drawn", sample);
         if (f.mate) return "last exact score '" + last->raw.substr(0, 120) + "' is a mate score in a drawn position" + ctx();
         if (cv.ok && cv.wdl > 0 && child.hmc + cv.plies <= 100) return "bestmove " + r.best + " turns a draw into a loss: afterwards the opponent has " + mateStr(cv) + ctx();
     } else if (lone) {
-        st.cls("root beyond the 50-move limit, class without zeroing moves");
+        st.clsSample("root beyond the 50-move limit, class without zeroing moves", sample);
         if (f.mate) return "last exact score '" + last->raw.substr(0, 120) + "' is a mate score although the mate cannot be completed before the 50-move limit" + ctx();
     } else {
-        st.cls("root beyond the 50-move limit, zeroing captures possible (only announcements checked)");
+        st.clsSample("root beyond the 50-move limit, zeroing captures possible (only announcements checked)", sample);
     }
     if (!tb) st.count("judged root without tbhits in any line");
     return "";
@@ -169,10 +169,14 @@ std::string runCase(const Case& k, vh::Stats& st, bool& inconclusive, Value& tai
         if (!r.triggered) { st.count("inconclusive: iteration 2 not finished in time"); resident = rt.cls; interludes = 0; continue; }
         st.count("tablebase roots searched");
         bool nt = false;
-        std::string v = judge(rt, r, st, nt);
+        auto sample = [&]() { Value o = Value::object(); o["fen"] = rt.fen; o["class"] = rt.cls; o["hash"] = k.hash; o["threads"] = k.threads; o["net"] = k.net; o["root_no_in_process"] = idx;
+                              refdtm::Value dv = refdtm::probe([&]() { ref::Pos p; ref::fromFEN(rt.fen, p); return p; }()); o["refdtm"] = mateStr(dv);
+                              for (size_t i = r.pv.size(); i-- > 0;) if (!r.pv[i].inf.upper && !r.pv[i].inf.lower) { o["last_exact_line"] = r.pv[i].raw.substr(0, 120); break; }
+                              o["bestmove"] = r.best; return o; };
+        std::string v = judge(rt, r, st, nt, sample);
         const char* how = resident == rt.cls ? "reuse of the resident table" : resident.empty() && interludes >= 5 ? "regeneration after the table was dropped" :
                           seen.count(rt.cls) ? "class switch back to an earlier class" : idx == 1 || resident.empty() ? "first table of the process" : "class switch";
-        st.cls(how);
+        st.clsSample(how, sample);
         if (nt) { st.nt(rt.fen + "|" + std::to_string(k.hash) + "|" + std::to_string(k.threads) + "|" + std::to_string(k.net) + "|" + how); st.cls("non-trivial root (DTM >= 3 or hmc >= 60)"); }
         if (k.threads > 1) st.cls("Threads > 1");
         st.count("Hash " + std::to_string(k.hash));
